@@ -140,7 +140,9 @@ NKey == <<"n">>
 \* that is not the alphabetical one, with an optional one between them
 InnerFields(some) == <<KV(InZ, JStr(S_)), KV(InB, IF some THEN JInt ELSE JNull), KV(InA, JStr(S_))>>
 \* the fixed fields of every struct variant `{ my_field: String, n: Option<i32> }`
-SVFields(some) == <<KV(MyField, JStr(S_)), KV(NKey, IF some THEN JInt ELSE JNull)>>
+\* (a struct variant may carry a `rename_all` of its own, `vra`, which renames its fields -- and only its fields)
+SVKey(v, name) == IF v.vra = "none" THEN name ELSE SerdeField(v.vra, name)
+SVFields(v, some) == <<KV(SVKey(v, MyField), JStr(S_)), KV(SVKey(v, NKey), IF some THEN JInt ELSE JNull)>>
 
 \* ------------------------------------------------------------------ definitions: well-formedness (what serde_derive accepts and the renderer supports)
 FieldTypes == {"str", "int", "inner"}
@@ -172,7 +174,7 @@ StructFieldsFrom(d, i, some) ==
 VariantTag(d, i) == LET v == d.variants[i] IN IF v.rclass # "none" THEN v.rename ELSE SerdeVariant(d.ra, v.name)
 \* struct `V { my_field, n }`, a struct variant without fields `V {}` (serde writes an empty object, not what it writes for a unit variant),
 \* or newtype(inner)
-PayloadFields(v, some) == IF v.shape = "struct" THEN SVFields(some) ELSE IF v.shape = "empty" THEN <<>> ELSE InnerFields(some)
+PayloadFields(v, some) == IF v.shape = "struct" THEN SVFields(v, some) ELSE IF v.shape = "empty" THEN <<>> ELSE InnerFields(some)
 Payload(v, some) == IF v.shape = "newtype" /\ v.payload = "str" THEN JStr(S_) ELSE JObj(PayloadFields(v, some))
 
 \* the value serde_json::to_value yields for sample (variant vi, all options Some / all None)
@@ -208,9 +210,12 @@ ReadOnlyKeys(d) == IF d.kind # "struct" THEN {}
 
 \* does from_value still read the same variant after the key at `path` was removed from RefValue(d, vi, some)?
 InnerProbeOk(k) == k = InB                         \* in_a, in_z: String are needed, in_b: Option defaults
-SVProbeOk(k) == k = NKey
+SVProbeOk(v, k) == k = SVKey(v, NKey)
 \* a struct with a skip_serializing field that cannot be defaulted cannot read what it writes: nothing can be probed
 RefRoundtrip(d) == d.kind # "struct" \/ \A i \in DOMAIN d.fields : d.fields[i].skip = "ser" => Defaultable(d, d.fields[i])
+\* ... and of an untagged enum only the first unit variant is ever read back (they are all written `null`)
+RefRoundtripV(d, vi) == /\ RefRoundtrip(d)
+                        /\ ~(d.kind = "enum" /\ d.tagging = "untagged" /\ d.variants[vi].shape = "unit" /\ \E j \in 1..(vi - 1) : d.variants[j].shape = "unit")
 RefProbeOk(d, vi, path) ==
   IF ~RefRoundtrip(d) THEN FALSE
   ELSE IF d.kind = "struct" THEN
@@ -219,7 +224,7 @@ RefProbeOk(d, vi, path) ==
     ELSE IF Len(path) = 1 THEN Defaultable(d, d.fields[i])
     ELSE InnerProbeOk(path[2])        \* inside a nested Inner: the outer field is present, the inner key decides
   ELSE LET v == d.variants[vi]
-           pk(k) == IF v.shape = "struct" THEN SVProbeOk(k) ELSE InnerProbeOk(k) IN
+           pk(k) == IF v.shape = "struct" THEN SVProbeOk(v, k) ELSE InnerProbeOk(k) IN
        CASE d.tagging = "external" -> Len(path) = 2 /\ pk(path[2])
          [] d.tagging = "internal" -> path[1] # TagKey /\ pk(path[1])
          [] d.tagging = "adjacent" -> Len(path) = 2 /\ pk(path[2])
@@ -234,7 +239,7 @@ RECURSIVE SetToSeq(_)
 SetToSeq(S) == IF S = {} THEN <<>> ELSE LET x == CHOOSE y \in S : TRUE IN <<x>> \o SetToSeq(S \ {x})
 RefSample(d, vi, some) ==
   LET j == RefValue(d, vi, some) IN
-  [v |-> vi, some |-> some, json |-> j, roundtrip |-> RefRoundtrip(d),
+  [v |-> vi, some |-> some, json |-> j, roundtrip |-> RefRoundtripV(d, vi),
    probes |-> SetToSeq({[path |-> p, ok |-> RefProbeOk(d, vi, p)] : p \in PathsOf(j, <<>>, 3)})]
 RefSamples(d) == {RefSample(d, vi, some) : vi \in 1..NVariants(d), some \in BOOLEAN}
 
@@ -375,7 +380,7 @@ SigOf(d, f) ==
 \* ------------------------------------------------------------------ what a correct derive may emit (one admissible schema per definition)
 NullOr(n) == [Node0 EXCEPT !.anyOf = <<n, NType("null")>>]
 InnerNode == NObj(<<P(InZ, TRUE, NType("string")), P(InB, FALSE, NullOr(NType("integer"))), P(InA, TRUE, NType("string"))>>)
-SVProps == <<P(MyField, TRUE, NType("string")), P(NKey, FALSE, NullOr(NType("integer")))>>
+SVProps(v) == <<P(SVKey(v, MyField), TRUE, NType("string")), P(SVKey(v, NKey), FALSE, NullOr(NType("integer")))>>
 TyNode(f) == LET t == CASE f.ty = "str" -> NType("string") [] f.ty = "int" -> NType("integer") [] f.ty = "inner" -> InnerNode
                         [] f.ty = "bool" -> NType("boolean") IN
              IF f.opt /\ ~f.ssif THEN NullOr(t) ELSE t
@@ -387,7 +392,7 @@ IdealProps(d, i) ==
         ELSE IF f.flatten THEN InnerNode.props
         ELSE <<P(FieldKey(d, i), AlwaysWritten(f) /\ ~Defaultable(d, f), TyNode(f))>>) \o IdealProps(d, i + 1)
 TagNode(tag) == [Node0 EXCEPT !.type = "string", !.enum = <<tag>>]
-PayloadProps(v) == IF v.shape = "struct" THEN SVProps ELSE IF v.shape = "empty" THEN <<>> ELSE InnerNode.props
+PayloadProps(v) == IF v.shape = "struct" THEN SVProps(v) ELSE IF v.shape = "empty" THEN <<>> ELSE InnerNode.props
 PayloadNode(v) == IF v.shape = "newtype" /\ v.payload = "str" THEN NType("string") ELSE NObj(PayloadProps(v))
 IdealBranch(d, vi) ==
   LET v == d.variants[vi]
@@ -398,6 +403,10 @@ IdealBranch(d, vi) ==
     [] d.tagging = "adjacent" -> IF v.shape = "unit" THEN NObj(<<P(TagKey, TRUE, TagNode(tag))>>)
                                   ELSE NObj(<<P(TagKey, TRUE, TagNode(tag)), P(ContentKey, TRUE, PayloadNode(v))>>)
     [] d.tagging = "untagged" -> IF v.shape = "unit" THEN NType("null") ELSE PayloadNode(v)
+\* (two variants that serde writes alike -- the unit variants of an untagged enum are all `null` -- make one alternative, not two: a value must
+\*  match exactly one branch of a oneOf)
+IdealBranches(d) == LET idx == SelectSeq([i \in 1..Len(d.variants) |-> i], LAMBDA i : ~\E j \in 1..(i - 1) : IdealBranch(d, j) = IdealBranch(d, i))
+                    IN [k \in DOMAIN idx |-> IdealBranch(d, idx[k])]
 IdealSchema(d) == IF d.kind = "struct" THEN NObj(IdealProps(d, 1))
-                  ELSE [Node0 EXCEPT !.oneOf = [vi \in 1..Len(d.variants) |-> IdealBranch(d, vi)]]
+                  ELSE [Node0 EXCEPT !.oneOf = IdealBranches(d)]
 =============================================================================
